@@ -268,6 +268,17 @@ class AlignInt(AbsInt):
             cell, tid = self.resolve(st, b, frame, t['dst'])
             self.write_cell(st, cell, res)
             return [(t['t'], st)]
+        if self.is_async_fn(fn) and (fn + '::{closure#0}') in getattr(self.f, 'folded_helpers', ()):
+            # a helper whose coroutine was folded into this body at its poll: the future is just the captured
+            # arguments (what the constructor of the coroutine builds)
+            args = [self.operand(st, b, frame, a) for a in t['args']]
+            if t['t'] < 0:
+                return []
+            cell, tid = self.resolve(st, b, frame, t['dst'])
+            if tid is not None:
+                self.cellty[cell] = tid
+            self.write_cell(st, cell, ('agg', ('closure', fn + '::{closure#0}'), 0, tuple(args)))
+            return [(t['t'], st)]
         if t.get('trait') == 'ops::Qcow2IoOps' or self.is_async_fn(fn) or any(fn.endswith(x) for x in self.sync_sinks):
             args = [self.operand(st, b, frame, a) for a in t['args']]
             rec = (b.path, bi, fn, t.get('name') or fn.rsplit('::', 1)[-1], args, st.copy(), frame, t)
